@@ -214,7 +214,7 @@ def sf_from_psd(psd, r, r0, L0):
     if _Z is None:
         _Z = jn_zeros(0, 1500)
     f0 = 1. / L0
-    big = 1e300                                                     # fm: exp(-(f/fm)^2) = 1, i.e. l0 -> 0
+    big = 1e150                                                     # fm: exp(-(f/fm)^2) = 1 exactly for every f used, i.e. l0 -> 0 (fm^2 still finite)
 
     def g(f):
         return 4 * numpy.pi * f * psd(f, big, f0, r0) * (1 - j0(2 * numpy.pi * f * r))
@@ -234,7 +234,7 @@ def psd_callables(chk):
     for fn in ("ft_phase_screen", "ft_sh_phase_screen"):
         entry = {"module": "aotools/turbulence/phasescreen.py", "python": fn, "extract": "PSD_phi"}
         try:
-            out[fn] = t1check._extract_callable(entry, ["f", "fm", "f0", "r0"])
+            out[fn] = t1check.callable_for(chk, "psd_" + fn, dict(entry, layout=[]), ["f", "fm", "f0", "r0"])
         except Exception as ex:
             chk.broke("translator", "cannot extract PSD_phi of phasescreen.%s: %s" % (fn, ex))
     return out
@@ -489,7 +489,8 @@ def oracle(chk, n, n_hankel, n_psd_mat):
             fm = logu(rng, 10., 1e5)
             p1, p2 = (numpy.asarray(call(p, f, fm, 1. / L0, r0), dtype=float) for p in (psds["ft_phase_screen"], psds["ft_sh_phase_screen"]))
             chk.case(("oracle-psd-hankel", r0, L0), sample={"hankel": True, "r0": r0, "L0": L0} if it < 1 else None)
-            if not numpy.array_equal(p1, p2):
+            if not numpy.allclose(p1, p2, rtol=1e-12, atol=0):      # the two copies of one formula: equal to rounding (not bitwise — a
+                # copy may be written differently, and an observed spectrum carries the rounding of the screen it was read from)
                 bad("copies:PSD_phi", "ft_phase_screen and ft_sh_phase_screen use different spectra at f=%s fm=%r L0=%r r0=%r" % (f.tolist(), fm, L0, r0),
                     f=f.tolist(), fm=fm, r0=r0, L0=L0)
             if not (numpy.isfinite(p1).all() and (p1 >= 0).all() and numpy.all(numpy.diff(p1[numpy.argsort(f)]) <= 0)):
